@@ -13,7 +13,11 @@ def main(tier, replay=None):
     os.environ["VERIF_AGP_ROOT"] = str(run.sub("agp"))
     if replay:
         tr = json.load(open(replay))["trace"]
-        if tr["kind"] == "rt":
+        if tr["kind"] == "afcli":
+            # an asm-format command line scenario: the pool assemblies and resolved input formats are re-exported by TLC
+            afx = C.export("AsmFormatCli", "INIT Init\nNEXT Next\nCHECK_DEADLOCK FALSE\nCONSTRAINT Emit\nCONSTANTS NRandomAsm = 0\n", run.dir, name="scen-afcli", timeout=600)
+            traces = [A.run_afcli(dict(o, tid=1)) for o in afx["objs"] if o["sc"] == tr["sc"]][:1]
+        elif tr["kind"] == "rt":
             traces = [A.run_rt({"tid": 1, "asm": tr["asm"], "big": tr["big"], "cli": 1})]
         else:
             traces = [t for t in A.corrupt_traces(1) if t["fmt"] == tr["fmt"] and t["what"] == tr["what"] and t["line"] == tr["line"]]
